@@ -114,3 +114,35 @@ def syms_in(v, acc=None):
         for a in v:
             syms_in(a, acc)
     return acc
+
+
+def effective_writers(K, field):
+    """methods that may write self.<field>: private helpers are replaced by the methods that call them"""
+    import ast as _ast
+
+    funcs = {}
+    for name, f in K.ns.items():
+        node = getattr(func_of(f), "node", None)
+        if node is not None:
+            funcs.setdefault(node.name, node)
+    direct = set()
+    calls = {}
+    for name, node in funcs.items():
+        for n in _ast.walk(node):
+            if isinstance(n, _ast.Attribute) and isinstance(n.ctx, _ast.Store) and n.attr == field and isinstance(n.value, _ast.Name) and n.value.id == "self":
+                direct.add(name)
+            if isinstance(n, _ast.Call) and isinstance(n.func, _ast.Attribute) and isinstance(n.func.value, _ast.Name) and n.func.value.id == "self":
+                calls.setdefault(n.func.attr, set()).add(name)
+    out = set()
+    work = list(direct)
+    seen = set()
+    while work:
+        w = work.pop()
+        if w in seen:
+            continue
+        seen.add(w)
+        if w.startswith("_") and not w.startswith("__") and calls.get(w):
+            work.extend(calls[w])
+        else:
+            out.add(w)
+    return out
